@@ -19,36 +19,43 @@ structure PrimsOk (P : Prims) : Prop where
   /-- a shorter request is a prefix of a longer one -/
   ks_prefix : ∀ k n a b, (P.ks k n 0 (a + b)).take a = P.ks k n 0 a
 
+theorem PrimsOk.laws {P : Prims} (hP : PrimsOk P) : StreamLaws P :=
+  ⟨hP.ks_len, hP.ks_offset, hP.ks_prefix⟩
+
 /-- RFC 8439 §2.8 pad16 -/
 def pad16 (x : Bytes) : Bytes := zeros ((16 - x.length % 16) % 16)
 
-/-- the IETF MAC data computed with `(0x10 - len) & 0xf` is exactly RFC 8439 §2.8 -/
+set_option linter.unusedVariables false in
+/-- the IETF MAC data computed with `(0x10 - len) & 0xf` is exactly RFC 8439 §2.8
+    (2^64 is a multiple of 16, so the identity in fact holds without the two length bounds) -/
 theorem ietf_macData_eq_rfc (ad c : Bytes) (ha : ad.length < 2 ^ 64) (hc : c.length < 2 ^ 64) :
     macData .ietf ad c = ad ++ pad16 ad ++ c ++ pad16 c ++ toLE 8 ad.length ++ toLE 8 c.length := by
-  sorry
+  simp only [macData, pad16, pad16len_eq]
 
 /-- combined form = detached ciphertext ‖ tag, byte for byte, and 16 bytes longer than the message -/
 theorem combined_eq_detached (P : Prims) (hP : PrimsOk P) (f : Flavor) (m ad n k : Bytes) :
     encrypt P f m ad n k = (encryptDetached P f m ad n k).1 ++ (encryptDetached P f m ad n k).2 ∧
-    (encrypt P f m ad n k).length = m.length + 16 := by
-  sorry
+    (encrypt P f m ad n k).length = m.length + 16 :=
+  ⟨rfl, encrypt_length P hP.ks_len hP.mac_len f m ad n k⟩
 
 /-- decrypting what was encrypted returns the message and its length (detached form) -/
 theorem roundtrip_detached (P : Prims) (hP : PrimsOk P) (f : Flavor) (m ad n k : Bytes) :
     decryptDetached P f true (encryptDetached P f m ad n k).1 (encryptDetached P f m ad n k).2 ad n k
-      = ⟨0, m.length, some m⟩ := by
-  sorry
+      = ⟨0, m.length, some m⟩ :=
+  Sodium.roundtrip_detached P hP.ks_len hP.mac_len f m ad n k
 
 /-- … and in combined form -/
 theorem roundtrip_combined (P : Prims) (hP : PrimsOk P) (f : Flavor) (m ad n k : Bytes) :
     decrypt P f true (encrypt P f m ad n k) ad n k = ⟨0, m.length, some m⟩ := by
-  sorry
+  have hl : (encryptDetached P f m ad n k).2.length = 16 := hP.mac_len _ _
+  rw [encrypt, decrypt_combined P f true _ _ ad n k hl]
+  exact roundtrip_detached P hP f m ad n k
 
 /-- XChaCha20-Poly1305: the IETF construction under the HChaCha20 subkey and nonce 0^4 ‖ n[16..24]; round trip -/
 theorem x_roundtrip (P : Prims) (hP : PrimsOk P) (m ad n k : Bytes) :
     xDecrypt P true (xEncrypt P m ad n k) ad n k = ⟨0, m.length, some m⟩ ∧
-    xEncrypt P m ad n k = encrypt P .ietf m ad (zeros 4 ++ (n.drop 16).take 8) (P.hcore (n.take 16) k) := by
-  sorry
+    xEncrypt P m ad n k = encrypt P .ietf m ad (zeros 4 ++ (n.drop 16).take 8) (P.hcore (n.take 16) k) :=
+  ⟨roundtrip_combined P hP .ietf m ad (xNonce n) (xSubkey P n k), rfl⟩
 
 /-- secretbox: the `block0` staging computes exactly "XOR with the keystream at byte offset 32,
     Poly1305 key = keystream bytes 0..32, tag over the ciphertext" -/
@@ -56,26 +63,49 @@ theorem secretbox_detached_eq_spec (P : Prims) (hP : PrimsOk P) (m n k : Bytes) 
     secretboxDetached P m n k =
       let ksAll := P.ks (sbSubkey P n k) (sbNonce n) 0 (32 + m.length)
       let c := xorBytes m (ksAll.drop 32)
-      (c, P.mac (ksAll.take 32) c) := by
-  sorry
+      (c, P.mac (ksAll.take 32) c) :=
+  secretboxDetached_spec hP.laws m n k
 
 theorem secretbox_easy_eq (P : Prims) (m n k : Bytes) :
-    secretboxEasy P m n k = (secretboxDetached P m n k).2 ++ (secretboxDetached P m n k).1 := by
-  sorry
+    secretboxEasy P m n k = (secretboxDetached P m n k).2 ++ (secretboxDetached P m n k).1 := rfl
 
 theorem secretbox_roundtrip (P : Prims) (hP : PrimsOk P) (m n k : Bytes) :
     secretboxOpenEasy P true (secretboxEasy P m n k) n k = ⟨0, m.length, some m⟩ ∧
     secretboxOpenDetached P true (secretboxDetached P m n k).1 (secretboxDetached P m n k).2 n k = ⟨0, m.length, some m⟩ := by
-  sorry
+  have h := secretbox_roundtrip_detached hP.laws hP.mac_len m n k
+  refine ⟨?_, h⟩
+  rw [secretboxEasy, secretboxOpenEasy_combined _ _ _ _ _ _ (secretboxDetached_snd_length hP.mac_len m n k)]
+  exact h
 
 /-- the NaCl zero-padded form agrees with the easy form: box(0^32 ‖ m) = 0^16 ‖ easy(m) -/
 theorem nacl_box_eq_easy (P : Prims) (hP : PrimsOk P) (m n k : Bytes) :
-    naclBox P (zeros 32 ++ m) n k = .ok (zeros 16 ++ secretboxEasy P m n k) := by
-  sorry
+    naclBox P (zeros 32 ++ m) n k = .ok (zeros 16 ++ secretboxEasy P m n k) :=
+  naclBox_spec hP.laws m n k
 
 /-- … and opens back to 0^32 ‖ m -/
 theorem nacl_open_box (P : Prims) (hP : PrimsOk P) (m n k : Bytes) :
-    naclOpen P (zeros 16 ++ secretboxEasy P m n k) n k = .ok (zeros 32 ++ m) := by
-  sorry
+    naclOpen P (zeros 16 ++ secretboxEasy P m n k) n k = .ok (zeros 32 ++ m) :=
+  naclOpen_spec hP.laws hP.mac_len m n k
+
+/-! non-vacuity: a concrete `Prims` meeting `PrimsOk`, and evaluated instances -/
+
+/-- the toy primitives of `Proofs/Aead.lean` (keystream byte = f(key, nonce, absolute position),
+    16-byte checksum MAC) satisfy every hypothesis -/
+theorem toyPrims_ok : PrimsOk toyPrims :=
+  ⟨toyPrims_ks_len, toyPrims_mac_len, toyPrims_ks_offset, toyPrims_ks_prefix⟩
+
+example : encrypt toyPrims .ietf [1,2,3] [9] [0,1] [5]
+    = [199, 207, 215, 224, 92, 165, 105, 111, 48, 34, 200, 5, 243, 201, 178, 139, 244, 149, 220] := by decide
+example : decrypt toyPrims .ietf true (encrypt toyPrims .ietf [1,2,3] [9] [0,1] [5]) [9] [0,1] [5]
+    = ⟨0, 3, some [1,2,3]⟩ := by decide
+example : decrypt toyPrims .orig true (encrypt toyPrims .orig [1,2,3] [9] [0,1] [5]) [9] [0,1] [5]
+    = ⟨0, 3, some [1,2,3]⟩ := by decide
+example : secretboxEasy toyPrims [1,2,3] [0,1,2,3,4,5,6,7,8,9,10,11,12,13,14,15,16,17,18,19,20,21,22,23] [5,6]
+    = [153, 173, 108, 75, 82, 89, 96, 103, 110, 117, 124, 131, 138, 145, 152, 159, 23, 31, 39] := by decide
+example : secretboxOpenEasy toyPrims true
+    (secretboxEasy toyPrims [1,2,3] [0,1,2,3,4,5,6,7,8,9,10,11,12,13,14,15,16,17,18,19,20,21,22,23] [5,6])
+    [0,1,2,3,4,5,6,7,8,9,10,11,12,13,14,15,16,17,18,19,20,21,22,23] [5,6] = ⟨0, 3, some [1,2,3]⟩ := by decide
+example : naclBox toyPrims (zeros 32 ++ [1,2,3]) [0,1,2,3,4,5,6,7,8,9,10,11,12,13,14,15,16,17,18,19,20,21,22,23] [5,6]
+    = .ok (zeros 16 ++ [153, 173, 108, 75, 82, 89, 96, 103, 110, 117, 124, 131, 138, 145, 152, 159, 23, 31, 39]) := by decide
 
 end Sodium.C01
